@@ -30,7 +30,11 @@ use shuttle::{Config, FailurePersistence, MaxSteps, Runner};
 use oracle::ExecCtx;
 use sched::{Recording, SchedStats};
 
-const KNOWN: &str = "/verif/known_findings.json";
+const KNOWN_DEFAULT: &str = "/verif/known_findings.json";
+/// read-only; VERIF_C17_KNOWN overrides the location (used only to test the matching)
+fn known_path() -> String {
+    std::env::var("VERIF_C17_KNOWN").unwrap_or_else(|_| KNOWN_DEFAULT.into())
+}
 
 /// Output root, /verif unless VERIF_C17_OUT is set (only the sensitivity script sets it,
 /// so that runs against mutants never touch /verif/replays and /verif/evidence).
@@ -368,9 +372,10 @@ struct Known {
 }
 
 fn load_known() -> Result<Vec<Known>, String> {
-    let Ok(bytes) = std::fs::read(KNOWN) else { return Ok(vec![]) };
-    let v: Value = serde_json::from_slice(&bytes).map_err(|e| format!("{KNOWN}: {e}"))?;
-    let list = v.as_array().cloned().or_else(|| v["findings"].as_array().cloned()).ok_or(format!("{KNOWN}: not a list"))?;
+    let known = known_path();
+    let Ok(bytes) = std::fs::read(&known) else { return Ok(vec![]) };
+    let v: Value = serde_json::from_slice(&bytes).map_err(|e| format!("{known}: {e}"))?;
+    let list = v.as_array().cloned().or_else(|| v["findings"].as_array().cloned()).ok_or(format!("{known}: not a list"))?;
     let mut out = Vec::new();
     for e in list {
         if e["property"].as_str() != Some("C17") {
@@ -599,6 +604,29 @@ fn check(tier: &str) -> Result<ExitCode, String> {
     let wall = start.elapsed().as_secs_f64();
     let schedules = sum.get("schedules").copied().unwrap_or(0);
     let snapshots_checked: u64 = snapshots.values().sum();
+    // table produced by sensitivity.sh (mutant -> detected-by -> seeds-to-detection)
+    let sensitivity: Value = std::fs::read("/verif/c17/mutants/sensitivity.json")
+        .ok()
+        .and_then(|b| serde_json::from_slice::<Value>(&b).ok())
+        .map(|v| {
+            v.as_array()
+                .into_iter()
+                .flatten()
+                .map(|c| {
+                    json!({
+                        "case": c["case"], "tier": c["tier"], "detected": c["detected"], "seeds_to_detection": c["seeds_to_detection"],
+                        "replay_exit_in_fresh_process": c["replay_exit_in_fresh_process"],
+                        "detected_by": c["classes"].as_array().into_iter().flatten().map(|k| json!({
+                            "oracle": k["oracle"], "site": k["site"],
+                            "earliest_detection_in_any_worker_after_schedules": k["earliest_detection_in_any_worker_after_schedules"],
+                        })).collect::<Vec<_>>(),
+                        "statime_own_tests_with_this_mutant": c["statime_own_tests_with_this_mutant"],
+                    })
+                })
+                .collect::<Vec<_>>()
+                .into()
+        })
+        .unwrap_or(Value::Null);
     let evidence = json!({
         "property": "C17",
         "part": 2,
@@ -652,6 +680,10 @@ fn check(tier: &str) -> Result<ExitCode, String> {
             "stub": ["lock: shuttle::sync::RwLock behind PtpInstanceStateMutex (DetectLock)", "Clock", "RngCore", "network: scripted Announce frames from the reference codec", "timers: fired by script", "tokio tasks/channels of statime-linux main.rs: shuttle threads + mpsc"],
         },
         "not_modelled": "writer preference / fairness of std::sync::RwLock (shuttle's RwLock is unfair); the nested-read deadlock is therefore caught by the depth monitor, not by a hang",
+        "sensitivity": {"source": "/verif/c17/mutants/sensitivity.json (written by /verif/c17/sensitivity.sh)", "cases": sensitivity},
+        "corrections_log": [
+            "oracle 4 (generations only move forward) first demanded monotonicity over the whole run and fired on the unchanged tree (seed 1, quick): after a BMCA in which master A's newest qualified Announce (k=259) lost against another master, statime removes it from the foreign master list; a later BMCA then selected the OLDER Announce k=258 of A, so parentDS/timePropertiesDS went from k=259 back to k=258. That is BMCA/foreign-master bookkeeping (C05/C06 territory), not a half-updated or re-entrantly locked state: the oracle demanded more than C17 states. It now only demands monotonicity between two BMCA runs (epoch taken under the lock)."
+        ],
         "samples": samples,
         "violations": unlisted,
         "violation_classes": reported,
